@@ -212,6 +212,13 @@ example : decodeStream [[0,1,2,3,4,5,6,7,8,9,10,11,12,13,14,15,0,0], [0,2,170], 
     ([⟨[0,1,2,3,4,5,6,7,8,9,10,11,12,13,14,15], [170, 187]⟩, ⟨[1,1,1,1,1,1,1,1,1,1,1,1,1,1,1,1], []⟩],
      Tail.clean) := by decide
 
+/-- senders that each hand their frame to the transport in ONE write (what `stream_send_msg` does) may be
+    interleaved in any order: whatever order `msgs` the whole frames end up in, the receiver gets exactly
+    those messages in that order -/
+theorem whole_frame_writes_decode (msgs : List Msg) (hwf : ∀ m ∈ msgs, m.WF) :
+    decodeStream (msgs.map encode) = (msgs, Tail.clean) :=
+  framing_any_chunking msgs (msgs.map encode) rfl hwf
+
 /-- the cut frame's own parse: `k` bytes of `encode m`, `0 < k < length` -/
 theorem recvFlat_cut (m : Msg) (k : Nat) (h : m.WF) (hk : k < (encode m).length) :
     ∃ st p e, recvFlat ((encode m).take k) = .error (st, p, e) ∧ cutTail m k = .eof st p e := by
